@@ -22,7 +22,7 @@ fn quote_cell(s: &str, force: bool) -> String {
 }
 
 fn gen_rows(rng: &mut Rng) -> Vec<SrcRow> {
-    let surf = ["東京", "a", "a,b", "q\"t", " ", "x y", "", "京都", "a", "東", "\"", "1,2,\"3\"", "é", "😀", "ab", "#", "#tag", ";x"];
+    let surf = ["東京", "a", "a,b", "q\"t", " ", "x y", "", "京都", "a", "東", "\"", "1,2,\"3\"", "é", "😀", "ab", "#", "#tag", ";x", "𠮷野", "😀a", "\u{10FFFF}"];
     let cells = ["名詞", "f", "", "*", "a b", "x,y", "i\"j", " ", "終", "l1\nl2"];
     // 1 case in 20: one surface with 255..600 homographs (posting lists longer than one byte can count)
     let many = rng.chance(1, 20);
@@ -50,12 +50,28 @@ fn gen_rows(rng: &mut Rng) -> Vec<SrcRow> {
 }
 
 fn render(rng: &mut Rng, rows: &[SrcRow]) -> String {
+    // 1 file in 10 ends with two rows whose surface is empty (skipped rows, at the very end of the input)
+    let tail = if rng.chance(1, 10) { *rng.pick(&["\n,1,1,5,a\n,1,1,6,b\n", ",0,0,5,a\n,0,0,6,b", "\n,0,0,0,\n,0,0,0,\n"]) } else { "" };
+    let body = render_rows(rng, rows);
+    if tail.is_empty() { body } else if body.ends_with('\n') || body.ends_with('\r') || body.is_empty() { format!("{}{}", body, tail.trim_start_matches('\n')) } else { format!("{}\n{}", body, tail.trim_start_matches('\n')) }
+}
+
+fn render_rows(rng: &mut Rng, rows: &[SrcRow]) -> String {
     let term = *rng.pick(&["\n", "\n", "\r\n", "\r"]);
     let mut s = String::new();
     if rng.chance(1, 6) { s.push_str(term); }
     for (i, r) in rows.iter().enumerate() {
         s.push_str(&quote_cell(&r.surface, rng.chance(1, 5)));
-        s.push_str(&format!(",{},{},{},{}", r.lid, r.rid, r.cost, r.feature_raw));
+        // the numerals in any form Rust's integer parser accepts: a leading '+', leading zeros
+        let num = |rng: &mut Rng, v: i64| -> String {
+            match rng.below(12) {
+                0 if v >= 0 => format!("+{}", v),
+                1 => if v < 0 { format!("-{:06}", -v) } else { format!("{:06}", v) },
+                2 if v >= 0 => format!("{:09}", v),
+                _ => format!("{}", v),
+            }
+        };
+        s.push_str(&format!(",{},{},{},{}", num(rng, r.lid as i64), num(rng, r.rid as i64), num(rng, r.cost as i64), r.feature_raw));
         let last = i + 1 == rows.len();
         if !last || rng.chance(3, 4) { s.push_str(term); }
         if rng.chance(1, 6) && (!last || s.ends_with(term)) { s.push_str(term); } // blank line
